@@ -64,7 +64,26 @@ def rewrites(case, rng):
     ident = list(range(n))
     # R1/R2: implicit output / implicit brackets <-> explicit
     if form != "explicit":
-        out.append((form, desc, kw_of(case), family.render(ins, outs, "explicit"), kw_of(case), ident, [], None, op, op))
+        if fam == "elementwise" and form == "implicit-output" and has(ins, Num, lambda x: x.size != 1):
+            # every literal number is an axis of its own: 'a 3, a' means 'a c, a -> a c' with c=3 (a second literal
+            # 3 written in an output would be yet another axis), so the long form names the numbers
+            table0, extra0 = {}, {}
+            names0 = iter(["m0_", "m1_", "m2_", "m3_", "m4_", "m5_"])
+
+            def rep0(it):
+                if isinstance(it, Num) and it.size != 1:
+                    if it.uid not in table0:
+                        table0[it.uid] = next(names0)
+                        extra0[table0[it.uid]] = it.size
+                    return [Ax(table0[it.uid], it.size)]
+                return None
+
+            try:
+                out.append((form, desc, kw_of(case), family.render([map_items(e, rep0) for e in ins], [map_items(e, rep0) for e in outs], "explicit"), kw_of(case, extra0), ident, [], None, op, op))
+            except StopIteration:
+                pass
+        else:
+            out.append((form, desc, kw_of(case), family.render(ins, outs, "explicit"), kw_of(case), ident, [], None, op, op))
     # R3: number <-> fresh name + keyword
     if has(ins + outs, Num):
         names = iter(["n0_", "n1_", "n2_", "n3_", "n4_", "n5_", "n6_", "n7_", "n8_", "n9_"])
